@@ -483,6 +483,7 @@ def j_c11_tok(inp):
     return v
 
 
+@judge_for("C11", "midi_load_nd")
 @judge_for("C11", "midi_load")
 def j_c11_load(inp):
     """integer ticks in everything the loader returns (file ticks are integers; the rescaled position is rounded)"""
@@ -1163,6 +1164,7 @@ def j_c13_comp(inp):
 
 
 # ---- C13
+@judge_for("C13", "midi_load_nd")
 @judge_for("C13", "midi_load")
 def j_c13(inp):
     tpb, tracks, groups, metas, mi = inp[:5]
@@ -1733,7 +1735,7 @@ def recognise(prop, failure, kf):
                 return f"{f['witness']}: {f['what']}"
         if rec == "D19" and op == "tok_roundtrip" and "D19" in detail:
             return f"{f['witness']}: {f['what']}"
-        if rec == "D21" and op == "midi_load":
+        if rec == "D21" and op in ("midi_load", "midi_load_nd"):
             tpb, tracks = inp[0], inp[1]
             for tr in tracks:
                 T, on_at = 0, {}
@@ -1744,7 +1746,7 @@ def recognise(prop, failure, kf):
                         on_at[(e[1], e[2])] = x
                     elif e[0] in ("on", "off") and on_at.pop((e[1], e[2]), None) == x:
                         return f"{f['witness']}: {f['what']}"
-        if rec == "D16" and op == "midi_load":
+        if rec == "D16" and op in ("midi_load", "midi_load_nd"):
             flat = [i for g in inp[2] for i in g]
             if len(set(flat)) != len(flat):
                 return f"{f['witness']}: {f['what']}"
